@@ -536,6 +536,77 @@ func lifeAcceptRace(id int, delay time.Duration) *lifeLine {
 	return line
 }
 
+// lifeDialRace: the active mirror image of lifeAcceptRace. The first session is lost, the reconnect loop dials again and
+// its Start is parked (verif gate tr.start.dialed) after the dial succeeded and before the socket is registered; Close
+// starts, then Start is released: it finds the transport sealed. The late socket must still be closed (no socket may
+// outlive Close) and Close must not ride out its timeout.
+func lifeDialRace(id int, delay time.Duration) *lifeLine {
+	line := &lifeLine{T: "life", ID: id, Role: "active", Ops: []lifeOp{}, CloseTimeoutMs: int(lifeCloseTimeout / time.Millisecond), Kind: "dial-race"}
+	cut, err := lab.NewCUT(lab.Options{Sid: 0x0102, T5: lifeT5, T6: 300 * time.Millisecond, T7: 400 * time.Millisecond, BackoffInit: 5 * time.Millisecond, BackoffMult: 1, CloseTimeout: lifeCloseTimeout})
+	if err != nil {
+		line.Fault = err.Error()
+		return line
+	}
+	pl, err := peerkit.ListenPeer()
+	if err != nil {
+		line.Fault = err.Error()
+		return line
+	}
+	defer pl.Close()
+	cut.Net.SetTarget(pl.Addr())
+	parked, release := make(chan struct{}), make(chan struct{})
+	var dials atomic.Int32
+	hsms.VerifSetGate(func(name string) {
+		if name == "tr.start.dialed" && dials.Add(1) == 2 {
+			close(parked)
+			<-release
+		}
+	})
+	defer hsms.VerifSetGate(nil)
+	released := false
+	rel := func() {
+		if !released {
+			released = true
+			close(release)
+		}
+	}
+	defer rel()
+	if err := cut.Open(); err != nil {
+		line.Fault = err.Error()
+		return line
+	}
+	p1, err := cut.ConnectPeer(pl, 3*time.Second)
+	if err != nil {
+		line.Fault = "connect: " + err.Error()
+		cut.Conn.Close()
+		return line
+	}
+	if f, ok := p1.Next(2 * time.Second); ok && f.ST == peerkit.STSelectReq {
+		p1.Send(peerkit.CtlStatus(peerkit.STSelectRsp, f.Sid, 0, f.SbU32()))
+	}
+	if !cut.WaitState("S", 2*time.Second) {
+		line.Fault = "could not establish the first session"
+		p1.Close()
+		cut.Conn.Close()
+		return line
+	}
+	p1.Reset() // the session is lost: the reconnect loop dials again
+	select {
+	case <-parked:
+	case <-time.After(3 * time.Second):
+		line.Fault = "the reconnect dial never reached the gate"
+		cut.Conn.Close()
+		return line
+	}
+	go func() {
+		time.Sleep(delay)
+		close(release)
+	}()
+	released = true
+	lifeAudit(line, cut, cut.Conn.Close)
+	return line
+}
+
 // lifeOpenDuringReconnect: open -> selected -> peer drops and is unreachable -> a redundant Open while the
 // reconnect loop is backing off (must be refused with already-open and change nothing) -> peer comes back:
 // the connection must recover.
@@ -645,6 +716,9 @@ func runLife(args []string) int {
 	faults := 0
 	for k, d := range []time.Duration{0, 2 * time.Millisecond, 30 * time.Millisecond} {
 		w.Emit(lifeAcceptRace(9000+k, d))
+	}
+	for k, d := range []time.Duration{0, 2 * time.Millisecond, 30 * time.Millisecond} {
+		w.Emit(lifeDialRace(9050+k, d))
 	}
 	w.Emit(lifeOpenDuringReconnect(9100, hsms.OpenBackground))
 	w.Emit(lifeOpenDuringReconnect(9101, hsms.OpenWaitSelected))
